@@ -39,7 +39,9 @@ THEOREMS = ["ElfioVerif.C03.encodeShdr_spec_bytes",
             "ElfioVerif.C03.save_header_fields",
             "ElfioVerif.C03.save_decode_fields",
             "ElfioVerif.C03.save_decode_header",
-            "ElfioVerif.C03.save_image_header"]
+            "ElfioVerif.C03.save_image_header",
+            "ElfioVerif.C03.secWrites_pairwise",
+            "ElfioVerif.C03.layoutOk_of_zones"]
 SITES = ["conv", "save_", "lsws", "lst_", "lseg", "wsd", "sec32_set", "sec64_set", "sec32_insert", "sec64_insert"]
 RULE = ("API construction programs from a random-model generator (0-8 sections of mixed types/flags/alignments/"
         "sizes incl. empty and no-bits, 0-4 segments incl. nested ones and a section-less PT_PHDR, explicit or "
